@@ -211,7 +211,9 @@ def make_transcoder(
 
     # is byteswap needed at input?
     swaps = list(
-        x.encoding.endianess != system_byte_order for x in data_streams
+        x.encoding.endianess != system_byte_order 
+        for x in data_streams
+        for _ in range(max(1, x.encoding.num_interleaved_channels))
     )
     if any(swaps):
         if all(swaps):
